@@ -1086,6 +1086,7 @@ sexp sexp_apply (sexp ctx, sexp proc, sexp args) {
   unsigned char *ip;
   sexp bc, cp, *stack = sexp_stack_data(sexp_context_stack(ctx)), tmp;
   sexp_sint_t i, j, k, fp, top = sexp_stack_top(sexp_context_stack(ctx));
+  sexp_sint_t base = top;
 #if SEXP_USE_GREEN_THREADS
   sexp root_thread = ctx;
   sexp_sint_t fuel = sexp_context_refuel(ctx);
@@ -1243,6 +1244,22 @@ sexp sexp_apply (sexp ctx, sexp proc, sexp args) {
   case SEXP_OP_RESUMECC:
     sexp_context_top(ctx) = top;
     tmp1 = stack[fp-1];
+    if ((sexp_sint_t)sexp_vector_length(sexp_vector_ref(cp, 0)) <= base
+#if SEXP_USE_GREEN_THREADS
+        && ctx == root_thread
+#endif
+        ) {
+      /* The continuation was captured outside of this (nested) call
+         to sexp_apply, i.e. we're escaping from a procedure called
+         from C.  We can't resume it here, underneath the C frames -
+         return a trampoline so that the C code unwinds as for any
+         other exception and the enclosing VM resumes it. */
+      tmp2 = sexp_list1(ctx, tmp1);
+      tmp2 = sexp_make_trampoline(ctx, self, tmp2);
+      top = base;
+      _PUSH(tmp2);
+      goto end_loop;
+    }
     tmp2 = sexp_restore_stack(ctx, sexp_vector_ref(cp, 0));
     if (sexp_exceptionp(tmp2)) {_ARG1 = tmp2; goto call_error_handler;}
     top = sexp_context_top(ctx);
